@@ -58,14 +58,15 @@ from bisturi.packet import PacketError
 def pack_impl(pkt, fragments, **k):
    k['innermost-pkt-pos'] = fragments.current_offset
    fields = pkt.get_fields()
+   offset = fragments.current_offset
    try:
 %(sync_descriptors_code)s
 %(blocks_of_code)s
    except PacketError as e:
-      e.add_parent_field_and_packet(fragments.current_offset, name, pkt.__class__.__name__)
+      e.add_parent_field_and_packet(offset, name, pkt.__class__.__name__)
       raise e
    except Exception as e:
-      raise PacketError(False, name, pkt.__class__.__name__, fragments.current_offset, str(e))
+      raise PacketError(False, name, pkt.__class__.__name__, offset, str(e))
 
    return fragments
 ''' % {
@@ -341,6 +342,7 @@ offset = next_offset
         pack_code = '''
 %(comments)s
 name = "%(name)s"
+offset = fragments.current_offset
 fragments.append(StructPack("%(fmt)s", %(lookup_fields)s))
 ''' % {
              'comments': comments.rstrip(),
@@ -373,6 +375,7 @@ fragments.append(StructPack("%(fmt)s", %(lookup_fields)s))
                 '''
 %(comments)s
 name, _, pack, _ = fields[%(field_index)i]
+offset = fragments.current_offset
 pack(pkt=pkt, fragments=fragments, **k)
 ''' % {
                     'comments':
